@@ -1,11 +1,90 @@
 import Librfn.Model.Bintree
 import Librfn.Spec.Tree
-/-! # C11 — tree iterators (work in progress: theorems are added in the staged order of DESIGN §9) -/
-namespace Librfn.C11
-open Librfn.Model.Bintree Librfn.Spec Librfn.Spec.Tree
+import Librfn.Lemmas.Bintree
+import Librfn.Lemmas.BintreeMorris
+/-!
+# C11 — tree iterators visit in the promised order, restore the tree, and free safely
 
-theorem length_inorder : ∀ t : Tree, (inorder t).length = size t
-  | .nil => rfl
-  | .node l x r => by simp [inorder, size, length_inorder l, length_inorder r]; omega
+Model: `Librfn.Model.Bintree` (statement-by-statement transcription of `bintree.c`; a dead node read is an
+error result, every loop has fuel).  Spec: `Librfn.Spec.Tree` (inductive trees, recursive traversals,
+`Repr h t p`).  Every theorem below is for **every tree shape** with pairwise distinct node ids — the proofs
+are structural inductions (lemmas in `Librfn.Lemmas.Bintree*`), not enumerations.
+-/
+namespace Librfn.C11
+open Librfn.Model.Bintree Librfn.Spec Librfn.Spec.Tree Librfn.Lemmas.Bintree
+
+theorem rootK_none (t : Tree) : rootK t none = root t := by cases t <;> rfl
+
+theorem inRun_none (tg : Bool) (g m f : Nat) (h : Heap) : inRun tg g (m + 1) (f + 1) h none = .ok ([], h) := by
+  simp [inRun, inOrderLoop]
+
+/-! ## in-order -/
+
+/-- **Morris in-order traversal, continuation form** (DESIGN §6 C11 `morris_in (t, k)`): from `curr = root t`
+    in a heap where `t` is intact except that its rightmost node's `right` is `k`, the calls of
+    `in_order_iterator` yield `inorder t`, arrive at `curr = k`, touch only nodes of `t` and leave the heap
+    as they found it — the rest of the run is the run from `k` in the *same* heap `h` (with `tg`, the heap
+    in which the caller has tagged the nodes of `t`). -/
+theorem morris_in_continuation (tg : Bool) (g : Nat) (τ : Nat → Bool) (t : Tree) (k : Ptr) (h : Heap) (m f : Nat)
+    (hg : size t + 1 ≤ g) (hf : t ≠ .nil → size t + 1 ≤ f) (hd : Distinct t)
+    (hk : ∀ a, k = some a → a ∉ inorder t) (hr : ReprK τ h t k) (hτ : ∀ i, i ∈ inorder t → τ i = false) :
+    inRun tg g (size t + m) f h (rootK t k) =
+      prepend (inorder t) (inRun tg g m (if t = .nil then f else g) (tagAll tg h (inorder t)) k) :=
+  morris_in tg g τ t k h m f hg hf hd hk hr hτ
+
+/-- the run of the in-order iterator over an intact tree, seen through `inRun` -/
+theorem inRun_tree (tg : Bool) (g : Nat) (t : Tree) (h : Heap) (m : Nat) (hg : size t + 1 ≤ g) (hd : Distinct t)
+    (hr : ReprK (fun _ => false) h t none) :
+    inRun tg g (size t + (m + 1)) g h (root t) = .ok (inorder t, tagAll tg h (inorder t)) := by
+  have := morris_in tg g (fun _ => false) t none h (m + 1) g hg (fun _ => hg) hd (by intro a ha; cases ha) hr
+    (fun _ _ => rfl)
+  rw [rootK_none] at this
+  rw [this]
+  obtain ⟨g', rfl⟩ : ∃ g', g = g' + 1 := ⟨g - 1, by omega⟩
+  have e : (if t = Tree.nil then g' + 1 else g' + 1) = g' + 1 := by split <;> rfl
+  rw [e, inRun_none]
+  simp [prepend]
+
+/-- **In-order iteration is correct and restores the tree, for every shape.**  On a heap holding `t` at `p`
+    (distinct ids), `bintree_iterate_in_order` + `bintree_next` until NULL, with any fuel `≥ 2·size + 2`,
+    does not fail, returns exactly `inorder t` (each node once, in the order of the recursive traversal),
+    and the final heap **is** the initial heap: every link has its original value. -/
+theorem in_order_iterator_correct (isList : Nat → Bool) (t : Tree) (h : Heap) (p : Ptr) (it0 : Iter) (g : Nat)
+    (hr : Repr h t p) (hd : Distinct t) (hg : 2 * size t + 2 ≤ g) :
+    ∃ out it', iterateAll isList g .inOrder h it0 p = .ok (out, h, it') ∧ out.map Prod.fst = inorder t := by
+  obtain ⟨rfl, hr⟩ := hr
+  have hrun := inRun_tree false g t h (g - size t - 1) (by omega) hd hr
+  have hcalls : size t + (g - size t - 1 + 1) = g := by omega
+  rw [hcalls, tagAll_false] at hrun
+  obtain ⟨out', it', hdr, hm⟩ := drain_of_inRun isList g g g h (root t) { it0 with next := .inOrder, curr := root t }
+    (inorder t) h rfl hrun
+  refine ⟨out', it', ?_, hm⟩
+  simp only [iterateAll, iterate, iterateInOrder, inOrderIterator]
+  cases hl : inOrderLoop g g h (root t) with
+  | error e => rw [hl] at hdr; simp at hdr
+  | ok res =>
+    obtain ⟨r, h1, c1⟩ := res
+    rw [hl] at hdr
+    simpa using hdr
+
+/-- each node exactly once -/
+theorem in_order_each_node_once (isList : Nat → Bool) (t : Tree) (h : Heap) (p : Ptr) (it0 : Iter) (g : Nat)
+    (hr : Repr h t p) (hd : Distinct t) (hg : 2 * size t + 2 ≤ g) :
+    ∃ out it', iterateAll isList g .inOrder h it0 p = .ok (out, h, it') ∧
+      (out.map Prod.fst).Nodup ∧ ∀ i, i ∈ out.map Prod.fst ↔ i ∈ inorder t := by
+  obtain ⟨out, it', h1, h2⟩ := in_order_iterator_correct isList t h p it0 g hr hd hg
+  exact ⟨out, it', h1, by rw [h2]; exact hd, by rw [h2]; intro i; rfl⟩
+
+/-- non-vacuity: the 3-node tree `1 ← 0 → 2` held by a concrete heap -/
+def exHeap : Heap := fun i =>
+  if i = 0 then some ⟨some 1, false, some 2⟩ else if i = 1 ∨ i = 2 then some ⟨none, false, none⟩ else none
+def exTree : Tree := .node (.node .nil 1 .nil) 0 (.node .nil 2 .nil)
+
+example : Repr exHeap exTree (some 0) ∧ Distinct exTree := by
+  refine ⟨⟨rfl, ?_⟩, by simp [Distinct, exTree, inorder]⟩
+  simp [ReprK, exHeap, exTree, root, rootK]
+
+example : (iterateAll (fun _ => false) 8 .inOrder exHeap default (some 0)).toOption.map (fun r => r.1.map Prod.fst)
+    = some [1, 0, 2] := by decide
 
 end Librfn.C11
